@@ -1234,6 +1234,9 @@ SUITES = {
 
 def generate(suite, seed, n, tier):
     r = Rng(seed, suite)
+    if suite not in SUITES and suite.startswith("ffi_"):
+        import gen_ffi          # imports this module: resolved lazily to avoid the cycle
+        return list(gen_ffi.FFI_SUITES[suite](r, n, tier))
     return list(SUITES[suite](r, n, tier))
 
 
